@@ -249,13 +249,16 @@ PLANS = {
     ),
     'C08': dict(
         module='RucteProps.C08',
-        theorems=['Ructe.C08.byteString_roundtrip', 'Ructe.C08.strDebug_roundtrip', 'Ructe.C08.name_raw_counterexample'],
+        extra_modules=['RucteProps.C08Items'],
+        theorems=['Ructe.C08.byteString_roundtrip', 'Ructe.C08.strDebug_roundtrip', 'Ructe.C08.name_raw_counterexample',
+                  'Ructe.C08.data_item_exact', 'Ructe.C08.file_item_exact', 'Ructe.C08.as_item_exact', 'Ructe.C08.addStatic_src',
+                  'Ructe.C08.pathFor_absolute', 'Ructe.C08.pathFor_relative'],
         runs=[dict(suite='script', mix='statics', n=dict(quick=200, thorough=1500), projection='script+files', tags=['C08'], statics_oracle=True),
               dict(suite='script', mix='statics', n=dict(quick=40, thorough=400), projection='script+names', tags=['C08'], args=['--keep'], statics_e2e=dict(quick=24, thorough=200))],
         correspondence='text of statics.rs vs Ructe.Statics.finish; every printed content / path / name literal decoded by the Lean model of rustc\'s lexer',
         rule='as C07, all five add_* entry points; oracle: decoded content literal = data, decoded include_bytes! path = file path, decoded name literal = published URL name; non-trivial = items checked',
         assumptions=['rustc lexes literals as the Rust Reference says (e2e compile is the judge)'],
-        level_text='Proved: byteString_roundtrip (every byte string), strDebug_roundtrip (every valid UTF-8 string, every uniEsc) for the content, include_bytes! path and name literals. Tie on statics.rs text + literal-decoding oracle + the generated module compiled by rustc with contents and names read back.',
+        level_text='Proved: byteString_roundtrip (every byte string), strDebug_roundtrip (every valid UTF-8 string, every uniEsc) for the content, include_bytes! path and name literals; at item level (C08Items) for each way a file is added: data_item_exact (add_file_data: the content literal denotes exactly the data, the name literal stem-<slug of the data>.ext), file_item_exact (add_file on an input tree: the call opens path_for(base, p), the name carries the hash of exactly the bytes found there, and the include_bytes! literal denotes exactly that same path - never tidied or re-spelled), as_item_exact (add_file_as: name literal = the URL name, content literal = path_for(base, p)); pathFor_absolute / pathFor_relative. Tie on statics.rs text + literal-decoding oracle + the generated module compiled by rustc with contents and names read back.',
         level_note='Trusted: Lean kernel; hand-written model of Rust literal syntax and of add_static.',
         design_ref='DESIGN.md §6 C08',
     ),
